@@ -8,21 +8,19 @@
    bytes_ok (= bytes: all < 256): as in Properties_C10mp.v.  scope_client n h / scope_client_arr n h: the reader
    operations the scope classes issue for the history h on a root object / a root array (MpScopeClient.v; n bounds the
    loops).  frag_reqs / frag_areqs / frag_vact: the fragment of the history language that is re-expressed as a client
-   (everything but byte-array scopes and guarded requests).
-   bytes_free s (THE SHAPES THAT QUALIFY): no byte container (SBytes: std::vector<uint8_t>-like targets loaded through
-   the binary scope) at any depth of the shape; everything else is admitted: scalars, strings, sequence containers,
-   fixed-size arrays, vector<bool>, tuples, classes, std::map in any mode, optional / smart pointers, multimap, pair,
-   sets. *)
+   (everything but the guarded request ATry).
+   THE SHAPES THAT QUALIFY: ALL OF THEM (the request programs of every shape lie in the fragment,
+   T_C01_mp_programs_in_fragment: byte containers included since the binary scope is part of the client). *)
 From BS Require Import Base MpSpec MpModel StreamIStream StreamSpec StreamModel StreamBsrProofs MpStreamModel MpStreamProofs.
 From BS Require Import MpLemmas MpReader MpTyped MpSaveModel MpSave
-  MpScopeSpec MpScopeModel MpScopeLemmas MpScopeTyped MpScopeProofs MpScopeRefine MpLoadModel MpLoadProofs MpScopeClient MpLoadStream.
+  MpScopeSpec MpScopeModel MpScopeLemmas MpScopeTyped MpScopeProofs MpScopeRefine MpLoadModel MpLoadBytes MpLoadProofs MpScopeClient MpLoadStream.
 Local Open Scope N_scope.
 
-(* the request programs of a shape without byte containers lie in the fragment — for EVERY document value, every
+(* the request programs of EVERY shape lie in the fragment — for EVERY document value, every
    content of the target and every policy (the caller's own throws — tuple size mismatch, a map key that does not
    convert — are requests at which the client stops; an error-free load never reaches one): the program of an array
    element, of a class member under any name, of a mapped value under the visited key *)
-Theorem T_C01_mp_programs_in_fragment : forall o s, bytes_free s = true ->
+Theorem T_C01_mp_programs_in_fragment : forall o s,
   (forall i v, frag_areqs (mk_areqs (elem_prog o s i v)) = true) /\
   (forall i q ov, frag_reqs (mk_reqs (member_prog o s i q ov)) = true) /\
   (forall i v, frag_vact (vact_prog o s i v) = true).
@@ -31,10 +29,10 @@ Print Assumptions T_C01_mp_programs_in_fragment.
 
 (* ... hence the root histories *)
 Theorem T_C01_mp_root_programs_in_fragment : forall o,
-  (forall ms i kvs, bytes_free (SClass ms) = true -> frag_reqs (class_prog o ms i kvs) = true) /\
-  (forall m ks e i kvs, bytes_free e = true -> frag_reqs (map_prog o m ks e i kvs) = true) /\
-  (forall e i vs, bytes_free e = true -> frag_areqs (vec_prog o e i vs) = true) /\
-  (forall ss i vs, bytes_free (STuple ss) = true -> frag_areqs (tuple_prog o ss i vs) = true).
+  (forall ms i kvs, frag_reqs (class_prog o ms i kvs) = true) /\
+  (forall m ks e i kvs, frag_reqs (map_prog o m ks e i kvs) = true) /\
+  (forall e i vs, frag_areqs (vec_prog o e i vs) = true) /\
+  (forall ss i vs, frag_areqs (tuple_prog o ss i vs) = true).
 Proof.
   intros o. split; [exact (class_prog_frag o)|]. split; [exact (map_prog_frag o)|]. split; [exact (vec_prog_frag o) | exact (tuple_prog_frag o)].
 Qed.
@@ -60,26 +58,30 @@ Theorem T_C01_mp_array_history_over_stream : forall narrow widen o K data fuel h
 Proof. intros narrow widen o K data fuel h toks rest HK. exact (arr_run_over_stream narrow widen o K HK data fuel h toks rest). Qed.
 Print Assumptions T_C01_mp_array_history_over_stream.
 
-(* SAVE, THEN LOAD FROM A STREAM — a class at the root: for every value tree of a class shape without byte containers,
+(* SAVE, THEN LOAD FROM A STREAM — a class at the root: for every value tree of a class shape (byte containers included),
    whatever the policies, whatever the target holds, every chunk size K >= 8: the load program of the shape, run as
    scope_client against the MsgPack stream reader over the chunked reader on a seekable stream holding the saved
    bytes b, returns exactly the tokens load_tr consumes to produce LOk v (T_C01_mp_load_save at the token level), with
    the reader at the end of b, the close flag clear, and the transcript of the run in memory; where read_off is defined
-   (no std::map inside: map keys are not among the tokens) the tokens alone give back the saved tree *)
-Theorem T_C01_mp_load_save_stream : forall narrow widen o K kvs ms i b fuel,
-  (8 <= K)%nat -> fits_streamoff b -> bytes_ok b -> (length b < fuel)%nat ->
-  bytes_free (SClass ms) = true ->
+   (no std::map inside: map keys are not among the tokens) the tokens alone give back the saved tree.
+   Conditions on the VALUE only: wf_tv (integers in range), wf_bytes (strings hold bytes), has_shape, pairwise
+   different member names; that b consists of bytes follows (T_C01_mp_save_writes_bytes).  ONE length bound:
+   fits_streamoff b = the saved bytes are fewer than 2^63 (std::streamoff); fuel, the recursion bound of the stream
+   reader's model, is anything above the number of bytes *)
+Theorem T_C01_mp_load_save_stream : forall narrow widen o K kvs ms i b,
+  (8 <= K)%nat -> fits_streamoff b ->
   has_shape (TObj kvs) (SClass ms) = true -> clean_maps (SClass ms) = true -> wf_tv (TObj kvs) -> doc_ok (abs (TObj kvs)) = true ->
-  save (TObj kvs) = Some b ->
+  wf_bytes (TObj kvs) = true -> save (TObj kvs) = Some b ->
   exists toks,
     load_tr narrow widen o (SClass ms) i (abs (TObj kvs)) = (toks, LOk (TObj kvs)) /\
-    mps_client_bsr narrow widen K (stream_of b true) fuel o (scope_client (S (length b)) (class_prog o ms i (map absp kvs))) =
-      Ok (fst (str_client_run narrow widen b o (scope_client (S (length b)) (class_prog o ms i (map absp kvs)))),
-          Some (Some (toks, N.of_nat (length b), false))) /\
+    (forall fuel, (length b < fuel)%nat ->
+     mps_client_bsr narrow widen K (stream_of b true) fuel o (scope_client (S (length b)) (class_prog o ms i (map absp kvs))) =
+       Ok (fst (str_client_run narrow widen b o (scope_client (S (length b)) (class_prog o ms i (map absp kvs)))),
+           Some (Some (toks, N.of_nat (length b), false)))) /\
     (map_free (SClass ms) = true -> read_off (SClass ms) i toks = Some (LOk (TObj kvs), [])).
 Proof.
-  intros narrow widen o K kvs ms i b fuel HK Hf Hb Hfuel Hbf Hs Hc Hw Hd Hsv.
-  destruct (load_save_class_stream narrow widen o K HK kvs ms i b fuel Hf Hb Hfuel Hbf Hs Hc Hw Hd Hsv) as [toks [E R]].
+  intros narrow widen o K kvs ms i b HK Hf Hs Hc Hw Hd Hwb Hsv.
+  destruct (load_save_class_stream narrow widen o K HK kvs ms i b Hf Hs Hc Hw Hd Hwb Hsv) as [toks [E R]].
   exists toks. split; [exact E|]. split; [exact R|].
   intros Hmf. pose proof (read_off_load narrow widen o (SClass ms) i (abs (TObj kvs)) Hmf) as RO.
   unfold load_spec, load_toks in RO. rewrite E in RO. cbn [fst snd] in RO. exact (RO I).
@@ -88,45 +90,68 @@ Print Assumptions T_C01_mp_load_save_stream.
 
 (* ... a std::map (loaded with Clean) at the root: the program is VisitKeys with one keyed load per member from
    inside the callback *)
-Theorem T_C01_mp_load_save_map_stream : forall narrow widen o K kvs ks e i b fuel,
-  (8 <= K)%nat -> fits_streamoff b -> bytes_ok b -> (length b < fuel)%nat ->
-  bytes_free e = true ->
+Theorem T_C01_mp_load_save_map_stream : forall narrow widen o K kvs ks e i b,
+  (8 <= K)%nat -> fits_streamoff b ->
   has_shape (TObj kvs) (SMap MClean ks e) = true -> clean_maps e = true -> wf_tv (TObj kvs) -> doc_ok (abs (TObj kvs)) = true ->
-  save (TObj kvs) = Some b ->
+  wf_bytes (TObj kvs) = true -> save (TObj kvs) = Some b ->
   exists toks,
     load_tr narrow widen o (SMap MClean ks e) i (abs (TObj kvs)) = (toks, LOk (TObj kvs)) /\
+    forall fuel, (length b < fuel)%nat ->
     mps_client_bsr narrow widen K (stream_of b true) fuel o (scope_client (S (length b)) (map_prog o MClean ks e i (map absp kvs))) =
       Ok (fst (str_client_run narrow widen b o (scope_client (S (length b)) (map_prog o MClean ks e i (map absp kvs)))),
           Some (Some (toks, N.of_nat (length b), false))).
-Proof. intros narrow widen o K kvs ks e i b fuel HK. exact (load_save_map_stream narrow widen o K HK kvs ks e i b fuel). Qed.
+Proof. intros narrow widen o K kvs ks e i b HK. exact (load_save_map_stream narrow widen o K HK kvs ks e i b). Qed.
 Print Assumptions T_C01_mp_load_save_map_stream.
 
 (* ... a sequence container at the root (root array scope) *)
-Theorem T_C01_mp_load_save_vec_stream : forall narrow widen o K l e i b fuel,
-  (8 <= K)%nat -> fits_streamoff b -> bytes_ok b -> (length b < fuel)%nat ->
-  bytes_free e = true ->
+Theorem T_C01_mp_load_save_vec_stream : forall narrow widen o K l e i b,
+  (8 <= K)%nat -> fits_streamoff b ->
   has_shape (TArr l) (SVec e) = true -> clean_maps e = true -> wf_tv (TArr l) -> doc_ok (abs (TArr l)) = true ->
-  save (TArr l) = Some b ->
+  wf_bytes (TArr l) = true -> save (TArr l) = Some b ->
   exists toks,
     load_tr narrow widen o (SVec e) i (abs (TArr l)) = (toks, LOk (TArr l)) /\
-    mps_client_bsr narrow widen K (stream_of b true) fuel o (scope_client_arr (S (length b)) (vec_prog o e i (map abs l))) =
-      Ok (fst (str_client_run narrow widen b o (scope_client_arr (S (length b)) (vec_prog o e i (map abs l)))),
-          Some (Some (toks, N.of_nat (length b), false))) /\
+    (forall fuel, (length b < fuel)%nat ->
+     mps_client_bsr narrow widen K (stream_of b true) fuel o (scope_client_arr (S (length b)) (vec_prog o e i (map abs l))) =
+       Ok (fst (str_client_run narrow widen b o (scope_client_arr (S (length b)) (vec_prog o e i (map abs l)))),
+           Some (Some (toks, N.of_nat (length b), false)))) /\
     (map_free (SVec e) = true -> read_off (SVec e) i toks = Some (LOk (TArr l), [])).
 Proof.
-  intros narrow widen o K l e i b fuel HK Hf Hb Hfuel Hbf Hs Hc Hw Hd Hsv.
-  destruct (load_save_vec_stream narrow widen o K HK l e i b fuel Hf Hb Hfuel Hbf Hs Hc Hw Hd Hsv) as [toks [E R]].
+  intros narrow widen o K l e i b HK Hf Hs Hc Hw Hd Hwb Hsv.
+  destruct (load_save_vec_stream narrow widen o K HK l e i b Hf Hs Hc Hw Hd Hwb Hsv) as [toks [E R]].
   exists toks. split; [exact E|]. split; [exact R|].
   intros Hmf. pose proof (read_off_load narrow widen o (SVec e) i (abs (TArr l)) Hmf) as RO.
   unfold load_spec, load_toks in RO. rewrite E in RO. cbn [fst snd] in RO. exact (RO I).
 Qed.
 Print Assumptions T_C01_mp_load_save_vec_stream.
 
+(* ... ANY array-rooted target at the root: arr_rooted s = sequence container, fixed-size array (std::array / T[N]),
+   std::tuple, std::vector<bool>; root_arr_prog o s i vs = its history on the root array scope (vec_prog for the first
+   two, tuple_prog, the sequence program of bool) *)
+Theorem T_C01_mp_load_save_array_stream : forall narrow widen o K l s i b,
+  (8 <= K)%nat -> fits_streamoff b ->
+  arr_rooted s = true ->
+  has_shape (TArr l) s = true -> clean_maps s = true -> wf_tv (TArr l) -> doc_ok (abs (TArr l)) = true ->
+  wf_bytes (TArr l) = true -> save (TArr l) = Some b ->
+  exists toks,
+    load_tr narrow widen o s i (abs (TArr l)) = (toks, LOk (TArr l)) /\
+    (forall fuel, (length b < fuel)%nat ->
+     mps_client_bsr narrow widen K (stream_of b true) fuel o (scope_client_arr (S (length b)) (root_arr_prog o s i (map abs l))) =
+       Ok (fst (str_client_run narrow widen b o (scope_client_arr (S (length b)) (root_arr_prog o s i (map abs l)))),
+           Some (Some (toks, N.of_nat (length b), false)))) /\
+    (map_free s = true -> read_off s i toks = Some (LOk (TArr l), [])).
+Proof.
+  intros narrow widen o K l s i b HK Hf Ha Hs Hc Hw Hd Hwb Hsv.
+  destruct (load_save_array_stream narrow widen o K HK l s i b Hf Ha Hs Hc Hw Hd Hwb Hsv) as [toks [E R]].
+  exists toks. split; [exact E|]. split; [exact R|].
+  intros Hmf. pose proof (read_off_load narrow widen o s i (abs (TArr l)) Hmf) as RO.
+  unfold load_spec, load_toks in RO. rewrite E in RO. cbn [fst snd] in RO. exact (RO I).
+Qed.
+Print Assumptions T_C01_mp_load_save_array_stream.
+
 (* not vacuous: class { m : std::map<int8_t, vector<string>>; n : std::map<std::string, int32_t> } (ex_map_tree of
    T_C01_mp_map_example), 22 saved bytes on a seekable stream read in chunks of 8: the scopes over the stream reader
    return the tokens load_tr consumes, the reader ends at byte 22 *)
 Example T_C01_mp_stream_example :
-  bytes_free ex_map_shape = true /\
   match ex_map_tree with
   | TObj kvs =>
     match mps_client_bsr no_narrow id_widen 8 (stream_of ex_map_bytes true) 100 skip_all
@@ -140,15 +165,28 @@ Example T_C01_mp_stream_example :
   | _ => False
   end.
 Proof.
-  split; [vm_compute; reflexivity|].
   vm_compute. split; reflexivity.
 Qed.
 Print Assumptions T_C01_mp_stream_example.
 
+(* ... and with byte containers: ex_tree / ex_shape of T_C01_mp_example (a class with an int, vector<string>, a vector of
+   classes each holding a byte container, vector<vector<int16>>, nullptr_t), 48 saved bytes, chunk size 8 *)
+Example T_C01_mp_stream_example_bytes :
+  match ex_shape, ex_tree with
+  | SClass ms, TObj kvs =>
+    match mps_client_bsr no_narrow id_widen 8 (stream_of ex_bytes true) 100 skip_all
+            (scope_client 49 (class_prog skip_all ms (default_of ex_shape) (map absp kvs))) with
+    | Ok (tr, res) =>
+      res = Some (Some (fst (load_tr no_narrow id_widen skip_all ex_shape (default_of ex_shape) (abs ex_tree)), 48, false)) /\
+      snd (load_tr no_narrow id_widen skip_all ex_shape (default_of ex_shape) (abs ex_tree)) = LOk ex_tree
+    | Fault => False
+    end
+  | _, _ => False
+  end.
+Proof. vm_compute. split; reflexivity. Qed.
+Print Assumptions T_C01_mp_stream_example_bytes.
+
 (* NOT stated here:
-   - shapes with byte containers (the binary scope is not re-expressed as a client);
-   - tuples, fixed-size arrays, vector<bool>, multimaps and sets AT THE ROOT as save-then-load statements (inside a class,
-     a map or a sequence container they are covered; at the root T_C01_mp_array_history_over_stream with
-     T_C01_mp_root_programs_in_fragment and the T_C01_mp_load_*_on_model theorems of Properties_C01mp.v give the
-     same conclusion for every error-free load);
+   - multimaps and sets AT THE ROOT as save-then-load statements (inside a class, a map or a sequence container they are
+     covered; at the root T_C01_mp_array_history_over_stream applies to every error-free run of the scope model);
    - loads that end in an error, non-seekable streams: see Properties_C03s.v. *)
